@@ -21,7 +21,8 @@ for d in "$HERE"/selftest/mutations/*${PAT}*.diff; do
   if ! (cd "$scratch" && GOFLAGS=-mod=mod GOPROXY=off GOSUMDB=off go build ./... >/dev/null 2>&1); then echo "DOES-NOT-COMPILE $base"; fail=1; rm -rf "$scratch"; continue; fi
   out=$(VCGO_BIN="$BINDIR/vcgo" VERIF_REPO="$scratch" VERIF_EVIDENCE_DIR="$scratch/.ev" VERIF_OUT_DIR="$scratch/.out" VERIF_REPLAY_DIR="$scratch/.replay" "$HERE/check" "$prop" quick 2>&1); rc=$?
   n=$((n+1))
-  if [ "$rc" = "$expect" ]; then echo "ok       $base (exit $rc) $(echo "$out" | grep -c '^VIOLATION') violations"; else echo "WRONG    $base expected exit $expect got $rc"; echo "$out" | tail -5; fail=1; fi
+  if echo "$out" | grep -q 'obligation=engine.load'; then echo "LOAD-ERROR $base"; echo "$out" | grep ENGINE-ERROR | head -2; fail=1
+  elif [ "$rc" = "$expect" ]; then echo "ok       $base (exit $rc) $(echo "$out" | grep -c '^VIOLATION') violations"; else echo "WRONG    $base expected exit $expect got $rc"; echo "$out" | tail -5; fail=1; fi
   rm -rf "$scratch"
 done
 rm -rf "$BINDIR"
